@@ -115,3 +115,18 @@ Definition enum_field_ok (f : field) (b : block) : bool :=
   end.
 
 Definition enum_ok (t : list field) (b : block) : bool := forallb (fun f => enum_field_ok f b) t.
+
+(* ---------- values that must be read back exactly as assigned ---------- *)
+(* (a 32-bit real is read back as the nearest single; a clamped position as the clamped value;
+   a 6-boolean status_HMI as the 16 bits of its word: those are covered by [stored]) *)
+Definition canonical (e : axis_env) (f : field) (v : value) : Prop :=
+  match fkind f, v with
+  | KBool, VBool _ | KBit _ _ _ _, VBool _ => True
+  | KUint _, VInt _ => True
+  | KInt false, VInt _ => True
+  | KInt true, VInt z => pos_lo e - 1 <= z <= pos_hi e + 1
+  | KReal64, VReal _ => True
+  | KBits n pos, VBools l => pos = seq 0 n /\ n = (8 * flen f)%nat
+  | KVersion, VPair ma mi => 0 <= ma /\ 0 <= mi
+  | _, _ => False
+  end.
